@@ -75,6 +75,29 @@ def run(ck, prog, ctx):
         msg = ("%s appends unchecked an id %s" % (b.short, "taken from iterating a group" if ok else ("that is the caller-supplied `%s` (order/uniqueness not checked)" % bad_params[0] if bad_params else "that does not come from iterating a group")))
         ck.ob("TAINT", "append/%s/%d" % (base, i), ok, msg, where=b.where(t.line))
     ck.floor("TAINT", "unchecked append sites", len(sinks), 8)
+    # whole-vector constructions: `HpoGroup { ids: <something built from caller data> }` is only sorted and duplicate free
+    # if the data was sorted and THEN deduplicated before it is stored
+    ncons = 0
+    for b in prog.production():
+        if b.kind not in ("Fn", "AssocFn", "Closure"):
+            continue
+        for pos, st in b.stmts():
+            if not (st.k == "assign" and st.rv["k"] == "agg" and st.rv.get("adt") == G and "ids" in st.rv.get("fields", [])):
+                continue
+            op = st.rv["ops"][st.rv["fields"].index("ids")]
+            at = pvn.of_operand(b, op)
+            ps = [a for a in at if a[0] == "param" and a[1] == b.id and not re.search(r"HpoGroup|SmallVec", b.locals[a[2]]["s"])]
+            ps = [a for a in ps if re.search(r"HpoTermId|Vec<|\[|Iterator|IntoIter|HashSet", b.locals[a[2]]["s"])]
+            if not ps:
+                continue  # empty / capacity-only construction
+            ncons += 1
+            roots = {a[2] for a in ps}
+            sorts = [(bi, t) for bi, t in b.calls() if t.callee.method in ("sort", "sort_unstable", "sort_by", "sort_unstable_by", "sort_by_key") and params_of(pvn.of_operand(b, t.args[0]), b.id) & roots]
+            dedups = [(bi, t) for bi, t in b.calls() if t.callee.method in ("dedup", "dedup_by", "dedup_by_key") and params_of(pvn.of_operand(b, t.args[0]), b.id) & roots]
+            ok = bool(sorts) and bool(dedups) and all(any(b.dominates(sb, db) and sb != db for sb, _ in sorts) for db, _ in dedups) and all(b.dominates(db, pos[0]) for db, _ in dedups)
+            ck.ob("TAINT", "construct/%s" % b.short, ok, "%s stores caller-supplied ids as the group's vector %s" % (b.short, "after sorting and then de-duplicating them" if ok else
+                  ("after de-duplicating BEFORE sorting (non-adjacent duplicates survive)" if sorts and dedups else "without establishing order and uniqueness (needs sort, then dedup, or checked inserts)")), where=b.where(st.line))
+    ck.extra["whole_vector_constructions"] = ncons
     ck.extra["unchecked_append_wrappers"] = sorted(wrappers)
 
     # ------------------------------------------------------------------ DOM/SELECT: insert
